@@ -33,6 +33,8 @@ KINDS = {
     20: 'an update with a valid header from the authorised account failed',
     21: 'a step panicked',
     22: 'after a successful update the client type changed / the TSS key was not rotated / the consensus state of the header is not stored',
+    23: 'an installed, unexpired client: the proof gate at the installed height did not open once the delay had passed (or opened before), '
+        'or the installed consensus state / its metadata vanished',
 }
 
 TYPES = {'tm': 'TM', 'bsc': 'BSC', 'eth': 'ETH', 'tss': 'TSS', 'tendermint': 'TM'}
@@ -264,16 +266,39 @@ def finding_key(kind, results, h, s):
     return 'kind-%d:%s' % (kind, describe(None, op))
 
 
+def classify_error(err):
+    """coarse class of a rejection, from the error text (used for the measured distribution only, never compared)"""
+    e = (err or '').lower()
+    for pat, name in (('unauthorized', 'unauthorized-relayer'), ('invalid tss address', 'tss-signer'), ('not active', 'client-not-active'),
+                      ('recently signed', 'bsc-recently-signed'), ('unauthorized validator', 'bsc-unauthorized-validator'),
+                      ('coinbase', 'bsc-coinbase-mismatch'), ('unknown ancestor', 'unknown-ancestor'), ('header index not found', 'eth-prune-unrooted'),
+                      ('from the future', 'from-the-future'), ('failed to verify header', 'tm-light-verify'),
+                      ('consensus state', 'consensus-state-missing-or-foreign'), ('client-type', 'client-type'), ('client type', 'client-type'),
+                      ('already exists', 'client-exists'), ('not found', 'not-found'), ('identifier', 'invalid-identifier'),
+                      ('expected type', 'header-of-another-type'), ('difficulty', 'wrong-difficulty'), ('genesis', 'invalid-genesis-block'),
+                      ('epoch', 'bsc-epoch'), ('bloom', 'bloom'), ('address', 'bad-address')):
+        if pat in e:
+            return name
+    return 'other' if e else 'none'
+
+
+def cons_heights(store):
+    return set(tuple(e['h']) for e in store['entries'] if e['k'] == 'cons')
+
+
 def check(run):
     run.proof_stage(extra_modules=['theories/Model/LifecycleCheck.v'])
+    if not run.quick():
+        run.coqchk_stage()
     ok, out = vlib.build_harness(['c18'])
     if not ok:
         run.violation(dict(kind='harness-build-failed', log=out[-3000:],
                            explanation='the correspondence harness no longer builds against /repo'), no_input=True)
         return run.finish()
-    n = run.budget(60, 600)
+    n = run.budget(96, 1500)
     outp = os.path.join(run.work, 'out.jsonl')
-    rc, o = vlib.run_harness('c18', ['-seed', run.seed, '-n', n, '-out', outp])
+    # thorough: the boundary histories of the corpus over a parameter grid (trusting periods, delays, epochs, validator counts)
+    rc, o = vlib.run_harness('c18', ['-seed', run.seed, '-n', n, '-out', outp] + ([] if run.quick() else ['-sweep']))
     if rc != 0:
         run.violation(dict(kind='harness-crashed', log=o[-3000:]), no_input=True)
         return run.finish()
@@ -294,9 +319,26 @@ def check(run):
     steps = 0
     for r in results:
         cur = {}
+        prev = r['init']
         for st in r['steps']:
             steps += 1
             op, ob = st['op'], st['obs']
+            if ob['class'] != 0 and op['k'] != 'tick':
+                dist['reject/%s/%s' % (op['k'], classify_error(ob.get('err')))] += 1
+            if op['k'] == 'update' and ob['class'] == 0:
+                # measured reach of the pruning / validator-switch branches of the light clients
+                for a, b in zip(prev['stores'], ob['stores']):
+                    if a['name'] == op.get('name'):
+                        gone = cons_heights(a) - cons_heights(b)
+                        if gone:
+                            dist['update-pruned-a-consensus-state/%s' % (op['hdr'].get('et') or op['hdr']['t'])] += 1
+                        ca = [e for e in a['entries'] if e['k'] == 'client']
+                        cb = [e for e in b['entries'] if e['k'] == 'client']
+                        if ca and cb and ca[0]['client']['t'] == 'bsc' and ca[0]['client']['vals'] != cb[0]['client']['vals']:
+                            dist['bsc-validator-set-switched'] += 1
+                        if sum(1 for e in a['entries'] if e['k'] == 'signer') >= sum(1 for e in b['entries'] if e['k'] == 'signer') and ca and ca[0]['client']['t'] == 'bsc':
+                            dist['bsc-recent-signer-shifted-out'] += 1
+            prev = ob
             d = describe(None, op)
             dist['%s/%s' % (op['k'], ['ok', 'error', 'panic'][ob['class']])] += 1
             if op['k'] != 'tick':
@@ -318,7 +360,8 @@ def check(run):
              'result class, rejecting stage)',
         distribution=dict(dist), generator_tags=tags, toggle_pairs=sorted('%s->%s' % t for t in toggles),
         model_mismatches=len(mm), monitor_failures=len(ff),
-        samples=[results[-1]['spec']] if results else []))
+        traces_validated_against_impl=len(results) - len({h for h, _, _ in mm}),
+        samples=[r['spec'] for r in results if r['spec'].get('tag') == 'corpus:back-tm->tss->tm'][:1] + ([results[-1]['spec']] if results else [])))
     run.coverage['trusted_base'] += [
         'hand-written model Model/Lifecycle.v tied to x/xibc/core/client + the four client types by this differential run '
         '(the generator bounds what it sees); key formats regenerated from the Go sources (Gen/KeysGen.v)',
